@@ -80,17 +80,38 @@ def run_sequence(it, st, fns, vals):
         yield from step(s1, b, 0)
 
 
+FULL_TEMPLATE = list(TEMPLATE)
+SHORT_TEMPLATE = [('lit', b'/a'), ('path', 'v1'), ('query', b'k', 'q1')]
+
+
 def run(rep, tier):
-    Lb = 2 if tier == 'quick' else 3
-    rep.bounds['content'] = f'template /a/{{v1}}/b/{{v2}}?k={{q1}}&j={{q2}}; every value a valid-UTF-8 byte string of <= {Lb} bytes, all 256 byte values admitted'
-    rep.bounds['length'] = 'length-only abstraction: value lengths over the full 64-bit range, len(encode(s)) in [len s, 3 len s]'
+    global TEMPLATE
     prog = program(['conjure_http'])
     fns = {n: find_fn(prog, n, inpath='::uri_builder::') for n in ('new', 'push_literal', 'push_path_parameter_raw', 'push_query_parameter_raw', 'build')}
+    rep.bounds['content'] = 'template /a/{v1}/b/{v2}?k={q1}&j={q2}; every value a valid-UTF-8 byte string of <= 2 bytes, all 256 byte values admitted' + (
+        '' if tier == 'quick' else '; thorough: template /a/{v1}?k={q1} with values of <= 4 bytes (every UTF-8 sequence length)')
+    rep.bounds['length'] = 'length-only abstraction: value lengths over the full 64-bit range, len(encode(s)) in [len s, 3 len s]'
+    TEMPLATE = list(FULL_TEMPLATE)
+    run_content(rep, prog, fns, 2, 'content')
+    if tier != 'quick':
+        TEMPLATE = list(SHORT_TEMPLATE)
+        try:
+            run_content(rep, prog, fns, 4, 'content4')
+        finally:
+            TEMPLATE = list(FULL_TEMPLATE)
+    run_length(rep, prog, fns)
+    rep.assumptions += ['percent_encoding::utf8_percent_encode(s, set): bytewise, keeps ASCII bytes outside the set, everything else %XX upper-case hex (crate contract)',
+                        'http::Uri::from_maybe_shared: byte tables PATH_MAP/QUERY_MAP of http 1.x, fragment truncation at #, Err when longer than 65534 bytes',
+                        'server side decoding = split on "/" + percent_decode (path), form_urlencoded::parse (query): "+" is a space, first "=" splits']
+    rep.outside += ['values longer than the stated bytes for the content query (the encoding is a bytewise map)', 'the macro/generator-side literal and key encoding']
+
+
+def run_content(rep, prog, fns, Lb, ctag):
     it = Interp(prog, models_std.MODELS + models_http.MODELS, {}, unwind=3 * Lb + 8)
     it.ext_consts.update(models_http.CONSTS)
     dec = Decider(rep, it)
     st = St()
-    vals = {n: sym_str(st, n, Lb) for n in ('v1', 'v2', 'q1', 'q2')}
+    vals = {t[-1]: sym_str(st, t[-1], Lb) for t in TEMPLATE if t[0] != 'lit'}
     npaths = 0
     for s2, rv in run_sequence(it, st, fns, vals):
         npaths += 1
@@ -99,7 +120,7 @@ def run(rep, tier):
             rep.inconc(f'C07: unwinding assertion at {rv.where}')
             continue
         if isinstance(rv, Panic):
-            m = dec.decide(f'content:path{npaths}:panic-reachable', s2, z3.BoolVal(True))
+            m = dec.decide(f'{ctag}:path{npaths}:panic-reachable', s2, z3.BoolVal(True))
             if m is not None:
                 report(rep, {k: model_bytes(m, v[1]) for k, v in vals.items()}, f'panic: {rv.msg}')
             continue
@@ -112,7 +133,7 @@ def run(rep, tier):
         structural = len(recs) == len(kinds)
         if structural:
             for (inp, mask, enc), kind, nm in zip(recs, kinds, names):
-                m = dec.decide(f'content:path{npaths}:{nm}:encoded-input==value', s2, z3.Not(bstr_eq(inp, vals[nm][1])))
+                m = dec.decide(f'{ctag}:path{npaths}:{nm}:encoded-input==value', s2, z3.Not(bstr_eq(inp, vals[nm][1])))
                 if m is not None:
                     structural = False
                     break
@@ -120,7 +141,7 @@ def run(rep, tier):
                 if cm is None:
                     raise Inconclusive('percent-encode set is not a compile-time constant')
                 bad = [b for b in range(128) if not (cm >> b) & 1 and not harmless(b, kind)]
-                rep.query(f'content:path{npaths}:{nm}:raw-bytes-harmless-at-{kind}-position', 'sat' if bad else 'unsat', 0.0,
+                rep.query(f'{ctag}:path{npaths}:{nm}:raw-bytes-harmless-at-{kind}-position', 'sat' if bad else 'unsat', 0.0,
                           raw_kept=''.join(chr(b) for b in range(33, 127) if not (cm >> b) & 1))
                 if bad:
                     wit = {k: b'x' for k in vals}
@@ -140,7 +161,7 @@ def run(rep, tier):
                     sep = b'?' if ri == kinds.index('query') else b'&'
                     exp = bstr_concat(bstr_concat(exp, bstr(sep + t[1] + b'=')), recs[ri][2])
                     ri += 1
-            m = dec.decide(f'content:path{npaths}:buffer==literals+separators+encoded-values', s2, z3.Not(bstr_eq(buf, exp)), bytes_per_value=Lb)
+            m = dec.decide(f'{ctag}:path{npaths}:buffer==literals+separators+encoded-values', s2, z3.Not(bstr_eq(buf, exp)), bytes_per_value=Lb)
             if m is not None:
                 report(rep, {k: model_bytes(m, v[1]) for k, v in vals.items()}, 'the built buffer is not the prescribed concatenation')
         else:
@@ -149,22 +170,22 @@ def run(rep, tier):
             # separators, and the text written for each value must decode back to it without any raw structural byte
             sem = semantic_runs(it, s2, buf, vals)
             if sem is None:
-                m = dec.decide(f'content:path{npaths}:structure-fallback', s2, z3.BoolVal(True))
+                m = dec.decide(f'{ctag}:path{npaths}:structure-fallback', s2, z3.BoolVal(True))
                 report(rep, {k: model_bytes(m, v[1]) for k, v in vals.items()}, 'the buffer is not assembled from the prescribed literals and one run of text per value', fallback=True)
             else:
                 for nm, kind, run in sem:
                     bad = z3.Or(z3.Not(run_ok(run, kind)), z3.Not(bstr_eq(percent_decode(run), vals[nm][1])))
-                    m = dec.decide(f'content:path{npaths}:{nm}:written-text-decodes-to-the-value-without-raw-structural-bytes', s2, bad, bytes_per_value=Lb)
+                    m = dec.decide(f'{ctag}:path{npaths}:{nm}:written-text-decodes-to-the-value-without-raw-structural-bytes', s2, bad, bytes_per_value=Lb)
                     if m is not None:
                         report(rep, {k: model_bytes(m, v[1]) for k, v in vals.items()}, f'the text written for the {kind} value {nm} does not decode back to it, or contains a raw structural byte')
                         break
     if npaths == 0:
         rep.inconc('vacuity: no path reached build()')
     # reachability twin replayed natively: values full of separators
-    m = dec.witness('content:values-with-separators', st, z3.And(vals['v1'][1].len == Lb, vals['v1'][1].bytes[0] == ord('/'),
-                                                                vals['q1'][1].len == Lb, vals['q1'][1].bytes[0] == ord('&'),
-                                                                vals['q2'][1].len >= 1, vals['q2'][1].bytes[0] == ord('+'),
-                                                                vals['v2'][1].len >= 1, vals['v2'][1].bytes[0] == ord('%')))
+    wcond = [vals['v1'][1].len == Lb, vals['v1'][1].bytes[0] == ord('/'), vals['q1'][1].len == Lb, vals['q1'][1].bytes[0] == ord('&')]
+    if 'q2' in vals:
+        wcond += [vals['q2'][1].len >= 1, vals['q2'][1].bytes[0] == ord('+'), vals['v2'][1].len >= 1, vals['v2'][1].bytes[0] == ord('%')]
+    m = dec.witness(ctag + ':values-with-separators', st, z3.And(*wcond))
     wit = {k: model_bytes(m, v[1]) for k, v in vals.items()}
     ops = native_ops(wit)
     nat = replay([{'op': 'uri_build', 'ops': ops}])[0]
@@ -173,11 +194,6 @@ def run(rep, tier):
     if not ok:
         report(rep, wit, 'twin witness: ' + why)
     finish_engine(rep, it)
-    run_length(rep, prog, fns)
-    rep.assumptions += ['percent_encoding::utf8_percent_encode(s, set): bytewise, keeps ASCII bytes outside the set, everything else %XX upper-case hex (crate contract)',
-                        'http::Uri::from_maybe_shared: byte tables PATH_MAP/QUERY_MAP of http 1.x, fragment truncation at #, Err when longer than 65534 bytes',
-                        'server side decoding = split on "/" + percent_decode (path), form_urlencoded::parse (query): "+" is a space, first "=" splits']
-    rep.outside += [f'values longer than {Lb} bytes for the content query (the encoding is a bytewise map)', 'the macro/generator-side literal and key encoding']
 
 
 def expected_literals():
